@@ -173,6 +173,8 @@ class Dispatch:
         self.outcomes = []
         self.malformed = []
         for pc, t in self.summary.returns:
+            if not sat(self.conj(pc)):
+                continue            # infeasible combination of a conditional value's alternatives
             if t[0] != "tuple" or len(t[1]) != 2:
                 self.malformed.append((pc, t))
                 continue
